@@ -202,6 +202,21 @@ def job_average(ctx, k):
                     ref = V[:, -1]
                     ctx.expect(abs(abs(float(a @ ref)) - 1) <= 1e-9, 'average = dominant eigenvector of sum q q^T', key, a, ref, 1e-9)
                 ctx.cls('average'); ctx.seen(('avg', idx, wname))
+    # arrays of PURE quaternions (N-by-3 input, half-turn attitudes): the average has a zero scalar part
+    V3 = np.array([[1.0, 0.1, 0.0], [1.0, -0.1, 0.05], [0.9, 0.0, 0.1], [1.0, 0.05, -0.1], [0.95, 0.1, 0.1]])
+    for n in (1, 2, 5):
+        for nm, arr in ((f'pure N={n} (N-by-3 input)', V3[:n]), (f'pure N={n} (N-by-4 input)', np.c_[np.zeros(n), V3[:n]])):
+            try:
+                a = np.asarray(QuaternionArray(arr.copy()).average())
+                good = _is_unit_real(a, tol=1e-9)
+                ctx.expect(good, 'average is a real unit quaternion', f'subset={nm} k{k}', {'dtype': str(a.dtype), 'value': a}, 'real float unit 4-vector', 1e-9)
+                if good:
+                    ref = rq.qunit(np.r_[0.0, np.linalg.eigh(sum(np.outer(rq.qunit(v), rq.qunit(v)) for v in V3[:n]))[1][:, -1]])
+                    ctx.expect(abs(abs(float(a @ ref)) - 1) <= 1e-9, 'average = dominant eigenvector of sum q q^T', f'subset={nm} k{k}', a, ref, 1e-9)
+            except Exception as ex:
+                ctx.evals += 1
+                ctx.fail('average raises', f'subset={nm} k{k}', repr(ex)[:200], 'unit quaternion')
+            ctx.cls('average'); ctx.seen(('avgpure', nm))
     ctx.sample({'average_subset': [S[0].tolist(), S[1].tolist(), S[2].tolist()]})
 
 
@@ -252,6 +267,19 @@ def job_layouts(ctx, k):
         ctx.close(np.asarray(Q), ref, 1e-7 if name == 'float32' else 1e-12, 'Quaternion(vector in another layout): own values = normalised vector', f'layout={name}')
         ctx.close(np.asarray(Q.A), ref, 1e-7 if name == 'float32' else 1e-12, 'Quaternion(vector in another layout): .A = normalised vector', f'layout={name}')
         ctx.cls('layout'); ctx.seen(('layout', 'Q', name))
+    # the object owns its data: changing the caller's array afterwards does not change (or denormalise) the object
+    src = np.array([1.0, 2.0, -2.0, 4.0]); Qo = Quaternion(src); keep = np.asarray(Qo).copy()
+    src *= 10.0
+    ctx.close(np.asarray(Qo), keep, 0.0, 'Quaternion(array): object unaffected by later changes of the caller array', 'float64 4-vector')
+    ctx.close(np.asarray(Qo.A), keep, 0.0, 'Quaternion(array): .A unaffected by later changes of the caller array', 'float64 4-vector')
+    srcu = rq.qunit(np.array([1.0, 2.0, -2.0, 4.0])); Qu = Quaternion(srcu); srcu[:] = [0.0, 0.0, 0.0, 2.0]
+    ctx.expect(abs(rq.qnorm(np.asarray(Qu)) - 1) <= 1e-12, 'Quaternion(unit array): still a unit quaternion after the caller overwrites its array', 'unit float64 4-vector', np.asarray(Qu), 'unit')
+    buf = np.array(Qrows[:3]); QAo = QuaternionArray(buf); keepA = np.asarray(QAo).copy(); buf[:] = 0.0
+    ctx.close(np.asarray(QAo), keepA, 0.0, 'QuaternionArray(array): object unaffected by later changes of the caller array', 'float64 rows')
+    Rb = Rm.copy(); Do = DCM(Rb); Rb[:] = 0.0
+    ctx.close(np.asarray(Do), Rm, 0.0, 'DCM(array): object unaffected by later changes of the caller array', 'float64 matrix')
+    ctx.close(np.asarray(Do.A), Rm, 0.0, 'DCM(array): .A unaffected by later changes of the caller array', 'float64 matrix')
+    Qc = Quaternion(Quaternion(np.array([0.5, 0.5, 0.5, 0.5]))); 
     ctx.sample({'layouts': ['C', 'F', 'T-view', 'strided', 'float32', 'list', 'int']})
 
 
@@ -332,6 +360,23 @@ def job_reject(ctx, k):
         must_reject(lambda: QuaternionArray(np.array(v) if not isinstance(v, str) else v), 'QuaternionArray(invalid)', f'input={name}')
         ctx.cls('reject:vector'); ctx.seen(('rejqa', name))
 
+    # degenerate values through the keyword routes of DCM: refused, never wrapped as a non-rotation
+    for name, fn in (('axang zero axis', lambda: DCM(axang=(np.zeros(3), 0.5))), ('axang NaN axis', lambda: DCM(axang=(np.array([nan, 0.0, 1.0]), 0.5))),
+                     ('axang NaN angle', lambda: DCM(axang=(np.array([0.0, 0.0, 1.0]), nan))), ('q zero', lambda: DCM(q=np.zeros(4))),
+                     ('q NaN', lambda: DCM(q=np.array([1.0, nan, 0.0, 0.0]))), ('x NaN', lambda: DCM(x=nan)), ('y NaN', lambda: DCM(y=nan, z=0.3)),
+                     ('rpy NaN', lambda: DCM(rpy=[0.1, nan, 0.2])), ('euler NaN', lambda: DCM(euler=('zyx', [0.1, 0.2, nan]))),
+                     ('rpy wrong length', lambda: DCM(rpy=[0.1, 0.2])), ('euler not a tuple', lambda: DCM(euler=['zyx', [0.1, 0.2, 0.3]]))):
+        ctx.evals += 1
+        try:
+            r = fn()
+            d = rq.so3_defect(np.asarray(r))
+            if not d <= 1e-12:
+                ctx.fail('DCM(keyword route, degenerate value): refused or a proper rotation, never a wrapped non-rotation', f'input={name}', np.asarray(r), 'ValueError/TypeError')
+        except (ValueError, TypeError):
+            pass
+        except Exception as ex:
+            ctx.fail('DCM(keyword route, degenerate value): refused or a proper rotation, never a wrapped non-rotation', f'input={name}', f'{type(ex).__name__}: {ex}'[:160], 'ValueError/TypeError')
+        ctx.cls('reject:vector'); ctx.seen(('rejkw', name))
     # matrices
     Rs = [rq.R(q) for q in [np.array([1.0, 0, 0, 0]), A.MENU[k], A.MENU[(k + 3) % 8], A.G48()[30], A.G48()[12], A.Gl(A.G120(), k)[17],
                             rq.axang2q([1, 2, 3], math.pi), rq.axang2q([0, 0, 1], 1e-9)]]
